@@ -4,6 +4,7 @@
 mod common;
 mod m_matcher;
 mod m_striptrim;
+mod m_sliceindex;
 
 use common::*;
 use rand::{rngs::SmallRng, SeedableRng};
@@ -13,6 +14,7 @@ fn replay_line(s: &mut Summary, v: &V) {
     match v["m"].as_str().unwrap_or("?") {
         "Matcher" => m_matcher::replay(s, v),
         "StripTrim" => m_striptrim::replay(s, v),
+        "SliceIndex" => m_sliceindex::replay(s, v),
         m => panic!("kh: unknown module {m}"),
     }
 }
@@ -24,6 +26,7 @@ fn main() {
     match args.get(1).map(|s| s.as_str()) {
         Some("replay") => {
             let mut s = Summary::default();
+            let progress = std::env::var("KH_PROGRESS").is_ok();
             for path in &args[2..] {
                 let f = BufReader::new(std::fs::File::open(path).expect("open vector file"));
                 for line in f.lines() {
@@ -35,7 +38,13 @@ fn main() {
                     s.lines += 1;
                     s.cur_line = s.lines;
                     s.cur = v.clone();
-                    replay_line(&mut s, &v);
+                    if progress {
+                        eprintln!("KH-LINE {line}");
+                    }
+                    let r = std::panic::catch_unwind(std::panic::AssertUnwindSafe(|| replay_line(&mut s, &v)));
+                    if r.is_err() {
+                        s.monitor("panic", false, "the code under test panicked where the specification expects a value");
+                    }
                 }
             }
             s.cur = V::Null;
@@ -50,6 +59,7 @@ fn main() {
             match module {
                 "Matcher" => m_matcher::record(&mut rng, n, &mut out),
                 "StripTrim" => m_striptrim::record(&mut rng, n, &mut out),
+                "SliceIndex" => m_sliceindex::record(&mut rng, n, &mut out),
                 m => panic!("kh: unknown module {m}"),
             }
             out.flush().unwrap();
